@@ -16,6 +16,8 @@ import (
 	"github.com/attestantio/vouch/services/attester"
 	"github.com/attestantio/vouch/services/beaconblockproposer"
 	"github.com/attestantio/vouch/services/beaconcommitteesubscriber"
+	"github.com/attestantio/vouch/services/synccommitteeaggregator"
+	"github.com/rs/zerolog"
 	e2wtypes "github.com/wealdtech/go-eth2-wallet-types/v2"
 )
 
@@ -347,3 +349,10 @@ func VerifC14_Aggregate() {
 	_, pend := e.s.pendingAttestations[slot]
 	vnd.Assert(!pend, "C20.pending.cleared-after-attest-and-aggregate")
 }
+
+func zerologDummy() zerolog.Logger { return zerolog.Logger{} }
+
+type hSyncAggSvc struct{}
+
+func (h *hSyncAggSvc) SetBeaconBlockRoot(_ phase0.Slot, _ phase0.Root)              {}
+func (h *hSyncAggSvc) Aggregate(_ context.Context, _ *synccommitteeaggregator.Duty) {}
